@@ -61,39 +61,124 @@ fn field_kind(f: u64) -> &'static str {
     if f == 2 { "I32" } else { "V" }
 }
 
+/// a varint with one redundant continuation byte when `pad` (still a valid spelling of the same number)
+fn varint_p(v: u64, pad: bool, out: &mut Vec<u8>) {
+    varint(v, out);
+    if pad {
+        let l = out.len();
+        out[l - 1] |= 0x80;
+        out.push(0);
+    }
+}
+
 fn encode_ser(m: &Value) -> Vec<u8> {
+    encode_ser_sp(m, "min")
+}
+
+/// writes the abstract serialisation in the given spelling of WireCanon.tla (which varints carry redundant continuation bytes)
+fn encode_ser_sp(m: &Value, sp: &str) -> Vec<u8> {
+    let (pv, pt, pl) = (sp == "padvalues" || sp == "padall", sp == "padtags" || sp == "padall", sp == "padlens" || sp == "padall");
     let mut out = vec![];
     for e in m.as_array().unwrap() {
         let f = e["f"].as_u64().unwrap();
         match e["w"].as_str().unwrap() {
             "V" => {
-                varint(f << 3, &mut out);
-                varint(e["v"].as_u64().unwrap(), &mut out);
+                varint_p(f << 3, pt, &mut out);
+                varint_p(e["v"].as_u64().unwrap(), pv, &mut out);
             }
             "I32" => {
-                varint((f << 3) | 5, &mut out);
+                varint_p((f << 3) | 5, pt, &mut out);
                 out.extend((e["v"].as_u64().unwrap() as u32).to_le_bytes());
             }
             _ => {
-                varint((f << 3) | 2, &mut out);
+                varint_p((f << 3) | 2, pt, &mut out);
                 let v = &e["v"];
                 let body: Vec<u8> = match v["t"].as_str().unwrap() {
                     "bytes" => v["b"].as_str().unwrap().as_bytes().to_vec(),
-                    "msg" => encode_ser(&v["m"]),
+                    "msg" => encode_ser_sp(&v["m"], sp),
                     _ => {
                         let mut b = vec![];
                         for x in v["s"].as_array().unwrap() {
-                            scalar(field_kind(f), x.as_u64().unwrap(), &mut b);
+                            if field_kind(f) == "I32" { scalar("I32", x.as_u64().unwrap(), &mut b) } else { varint_p(x.as_u64().unwrap(), pv, &mut b) }
                         }
                         b
                     }
                 };
-                varint(body.len() as u64, &mut out);
+                varint_p(body.len() as u64, pl, &mut out);
                 out.extend(body);
             }
         }
     }
     out
+}
+
+/// re-serialises a real message with redundant continuation bytes on randomly chosen varints (tags, length prefixes, varint values,
+/// also inside packed chunks and nested messages): a different but valid serialisation of the same value
+fn respell(bytes: &[u8], desc: &MessageDescriptor, rng: &mut rand::rngs::StdRng) -> Option<Vec<u8>> {
+    use prost_reflect::Kind;
+    let mut i = 0;
+    let mut out = vec![];
+    fn rd(bytes: &[u8], i: &mut usize) -> Option<(u64, usize)> {
+        let (mut v, mut s, start) = (0u64, 0, *i);
+        loop {
+            let b = *bytes.get(*i)?;
+            *i += 1;
+            v |= ((b & 0x7f) as u64) << s;
+            if b & 0x80 == 0 {
+                return Some((v, *i - start));
+            }
+            s += 7;
+            if s > 63 {
+                return None;
+            }
+        }
+    }
+    let mut put = |v: u64, len: usize, out: &mut Vec<u8>, rng: &mut rand::rngs::StdRng| {
+        // at most 10 bytes are a varint: pad only short ones
+        varint_p(v, len <= 8 && rng.gen_bool(0.5), out);
+    };
+    while i < bytes.len() {
+        let (tag, tl) = rd(bytes, &mut i)?;
+        put(tag, if tl <= 4 { tl } else { 9 }, &mut out, rng); // tags are read as 32-bit varints (<= 5 bytes): pad only 1..4-byte tags
+        let fd = desc.get_field((tag >> 3) as u32)?;
+        let varint_kind = matches!(fd.kind(), Kind::Int32 | Kind::Int64 | Kind::Uint32 | Kind::Uint64 | Kind::Sint32 | Kind::Sint64 | Kind::Bool | Kind::Enum(_));
+        match tag & 7 {
+            0 => {
+                let (v, l) = rd(bytes, &mut i)?;
+                put(v, l, &mut out, rng);
+            }
+            1 => {
+                out.extend(bytes.get(i..i + 8)?);
+                i += 8;
+            }
+            5 => {
+                out.extend(bytes.get(i..i + 4)?);
+                i += 4;
+            }
+            2 => {
+                let (l, ll) = rd(bytes, &mut i)?;
+                let body = bytes.get(i..i + l as usize)?;
+                i += l as usize;
+                let body2: Vec<u8> = match fd.kind() {
+                    Kind::Message(d) => respell(body, &d, rng)?,
+                    _ if varint_kind => {
+                        let (mut j, mut b) = (0, vec![]);
+                        while j < body.len() {
+                            let (v, l) = rd(body, &mut j)?;
+                            put(v, l, &mut b, rng);
+                        }
+                        b
+                    }
+                    _ => body.to_vec(),
+                };
+                let _ = ll;
+                varint_p(body2.len() as u64, rng.gen_bool(0.5), &mut out);
+                out.extend(body2);
+            }
+            _ => return None,
+        }
+    }
+    Some(out)
 }
 
 /// re-serialises a real message in a different but valid way: fields in a shuffled order (repeated entries keep their relative order)
@@ -169,7 +254,7 @@ fn roundtrip<T: ProtoFmt + PartialEq + std::fmt::Debug>(name: &str, v: &T, rng: 
         }
         // prost's own (non-canonical) encoding and a field-shuffled serialisation must normalise to the same bytes
         let alt = v.build().encode_to_vec();
-        for other in [Some(alt), shuffle_fields(&enc, rng)].into_iter().flatten() {
+        for other in [Some(alt), shuffle_fields(&enc, rng), respell(&enc, &desc, rng)].into_iter().flatten() {
             let c2 = zksync_protobuf::canonical_raw(&other, &desc).map_err(|e| format!("canonical_raw of an alternative valid serialisation failed: {e:#}"))?;
             if c2 != enc {
                 return Err("an alternative valid serialisation normalises to different bytes".to_string());
@@ -198,7 +283,7 @@ fn main() {
             for case in read_cases(&a[1]) {
                 rep.evaluations += 1;
                 rep.distinct += 1;
-                let bytes = encode_ser(&case["ser"]);
+                let bytes = encode_ser_sp(&case["ser"], case["spell"].as_str().unwrap_or("min"));
                 let want_valid = case["valid"].as_bool().unwrap();
                 let tag = json!({"mode": "canon", "case": case});
                 match catch(|| zksync_protobuf::canonical_raw(&bytes, &desc)) {
